@@ -18,6 +18,65 @@ USIZE_MAX = (1 << 64) - 1
 ISIZE_MAX = (1 << 63) - 1
 
 
+RQ = 12289
+
+
+def p_const(c):
+    c %= RQ
+    return {(): c} if c else {}
+
+
+def p_sym(name):
+    return {((name, 1),): 1}
+
+
+def p_add(a, b, sign=1):
+    out = dict(a)
+    for m, c in b.items():
+        v = (out.get(m, 0) + sign * c) % RQ
+        if v:
+            out[m] = v
+        else:
+            out.pop(m, None)
+    return out
+
+
+def p_mul(a, b):
+    out = {}
+    for m1, c1 in a.items():
+        for m2, c2 in b.items():
+            d = dict(m1)
+            for s_, e in m2:
+                d[s_] = d.get(s_, 0) + e
+            m = tuple(sorted(d.items()))
+            v = (out.get(m, 0) + c1 * c2) % RQ
+            if v:
+                out[m] = v
+            else:
+                out.pop(m, None)
+    return out
+
+
+def p_subst(p, env):
+    """substitute constants for some symbols"""
+    out = {}
+    for m, c in p.items():
+        rest = []
+        for s_, e in m:
+            if s_ in env:
+                c = c * pow(env[s_], e, RQ) % RQ
+            else:
+                rest.append((s_, e))
+        if c:
+            k = tuple(rest)
+            v = (out.get(k, 0) + c) % RQ
+            if v:
+                out[k] = v
+            else:
+                out.pop(k, None)
+    return out
+
+
 class Unsupported(Exception):
     pass
 
@@ -129,10 +188,11 @@ UNIT = Ag(())
 
 # ------------------------------------------------------------------------------------------- state
 class St:
-    __slots__ = ("store", "itv", "facts", "prov", "scale", "taint", "part")
+    __slots__ = ("store", "itv", "facts", "prov", "scale", "taint", "part", "res")
 
     def __init__(self):
         self.part = ()
+        self.res = {}
         self.store = {}
         self.itv = {}
         self.facts = {}
@@ -149,6 +209,7 @@ class St:
         s.scale = dict(self.scale)
         s.taint = set(self.taint)
         s.part = self.part
+        s.res = dict(self.res)
         return s
 
     # ---- intervals
@@ -200,6 +261,7 @@ class St:
         self.prov.pop(vid, None)
         self.scale.pop(vid, None)
         self.taint.discard(vid)
+        self.res.pop(vid, None)
         if self.facts:
             dead = [k for k in self.facts if k[0] == vid or k[1] == vid]
             for k in dead:
@@ -521,6 +583,8 @@ def rename_vid(st, old, new):
     if old in st.taint:
         st.taint.discard(old)
         st.taint.add(new)
+    if old in st.res:
+        st.res[new] = st.res.pop(old)
     for k in [k for k in st.facts if k[0] == old or k[1] == old]:
         c = st.facts.pop(k)
         st.facts[(new if k[0] == old else k[0], new if k[1] == old else k[1])] = c
@@ -549,6 +613,7 @@ def rename_bulk(st, m):
     st.prov = {g(k): (p[0], tuple(g(x) for x in p[1]), p[2]) for k, p in st.prov.items()}
     st.scale = {g(k): (mm, g(b)) for k, (mm, b) in st.scale.items()}
     st.taint = {g(x) for x in st.taint}
+    st.res = {g(k): v for k, v in st.res.items()}
 
 
 def gc_state(st, pins=()):
@@ -581,6 +646,8 @@ def gc_state(st, pins=()):
     st.prov = {k: p for k, p in st.prov.items() if k in live}
     st.scale = {k: s for k, s in st.scale.items() if k in live and s[1] in live}
     st.taint &= live
+    if st.res:
+        st.res = {k: v for k, v in st.res.items() if k in live}
 
 
 # ------------------------------------------------------------------------------------------- join
@@ -808,6 +875,27 @@ def join_states(ctx, a, b, tag, widen=False, thresholds=()):
             sb = b.scale.get(inv_b[ma[v]])
             if sb and sb[0] == m and mb.get(sb[1]) == ma[base]:
                 out.scale[ma[v]] = (m, ma[base])
+    if a.res and b.res:
+        inv_a2, inv_b2 = {}, {}
+        for s_, t in ma.items():
+            inv_a2.setdefault(t, s_)
+        for s_, t in mb.items():
+            inv_b2.setdefault(t, s_)
+        for t in out.itv:
+            xa, xb = inv_a2.get(t), inv_b2.get(t)
+            if xa in a.res and xb in b.res:
+                pa, pb = a.res[xa], b.res[xb]
+                if pa == pb:
+                    out.res[t] = pa
+                else:
+                    syms = getattr(ctx, "res_syms", {})
+                    ea = {n: a.itv[v][0] for n, v in syms.items() if v in a.itv and a.itv[v][0] == a.itv[v][1]}
+                    eb = {n: b.itv[v][0] for n, v in syms.items() if v in b.itv and b.itv[v][0] == b.itv[v][1]}
+                    for cand in (pa, pb):
+                        if p_subst(p_add(cand, pa, -1), ea) == {} and p_subst(p_add(cand, pb, -1), eb) == {}:
+                            out.res[t] = cand
+                            break
+
     def unchanged(x):
         if ma.get(x) == x and mb.get(x) == x:
             return True
